@@ -60,12 +60,14 @@ func ItemsEqual(it, with Item) bool {
 			result = i.Equals(with)
 			return nil
 		})
-		if ActivityTypes.Contains(with.GetType()) {
+		// NOTE: two activities (or two actors) are recognised by being Activity (Actor) values, not only by the
+		// type name: the generic "Activity"/"Actor" names and values without a type are in none of the type lists
+		if (isActivityValue(it) && isActivityValue(with)) || ActivityTypes.Contains(with.GetType()) {
 			_ = OnActivity(it, func(i *Activity) error {
 				result = i.Equals(with)
 				return nil
 			})
-		} else if ActorTypes.Contains(with.GetType()) {
+		} else if (isActorValue(it) && isActorValue(with)) || ActorTypes.Contains(with.GetType()) {
 			_ = OnActor(it, func(i *Actor) error {
 				result = i.Equals(with)
 				return nil
@@ -108,6 +110,22 @@ func ItemsEqual(it, with Item) bool {
 		})
 	}
 	return result
+}
+
+func isActivityValue(it Item) bool {
+	switch it.(type) {
+	case *Activity, Activity:
+		return true
+	}
+	return false
+}
+
+func isActorValue(it Item) bool {
+	switch it.(type) {
+	case *Actor, Actor:
+		return true
+	}
+	return false
 }
 
 func linksEqual(l, w *Link) bool {
